@@ -1009,6 +1009,89 @@ def _graph_diff(a, b):
     return None
 
 
+
+# ----------------------------------------------------------------------------- the relation `Aged` of the T3 lemmas, on real states
+
+def _shallow(v, d=0):
+    """comparable picture of a context value: containers by value, runtime objects by class and uid"""
+    if v is None or isinstance(v, (bool, int, float, str)):
+        return v
+    if d > 6:
+        return "<deep>"
+    if isinstance(v, dict):
+        return {"d": [[_shallow(k, d + 1), _shallow(x, d + 1)] for k, x in v.items()]}
+    if isinstance(v, (list, tuple)) or type(v).__name__ == "deque":
+        return {type(v).__name__: [_shallow(x, d + 1) for x in v]}
+    if isinstance(v, (set, frozenset)):
+        return {"set": sorted((json.dumps(_shallow(x, d + 1), sort_keys=True, default=str) for x in v))}
+    if isinstance(v, re.Pattern):
+        return {"re": [v.pattern, v.flags]}
+    if hasattr(v, "uid"):
+        return f"<{type(v).__name__} {getattr(v, 'uid', None)}>"
+    if hasattr(v, "name") and hasattr(v, "arguments"):
+        return {"ev": [type(v).__name__, v.name, _shallow(v.arguments, d + 1)]}
+    return f"<{type(v).__name__}>"
+
+
+def _aged_summary(state):
+    """what `Bisim.Aged` (lean/NemoVerif/Lemmas/CleanUpBisimFns.lean) speaks about, read off a real `State`"""
+    now = _Clock.now()
+    fs = {}
+    for uid, f in state.flow_states.items():
+        fs[uid] = {
+            "rec": [f.flow_id, f.loop_id, f.hierarchy_position, _shallow(f.head_fork_uids), list(f.action_uids), _shallow(f.context), f.priority,
+                    _shallow(f.arguments), f.parent_uid, f.parent_head_uid, f.status.name, f.activated, f.new_instance_started,
+                    [[h.uid, h.position, h.status.name, len(h.matching_scores), list(h.scope_uids), list(h.child_head_uids), list(h.catch_pattern_failure_label)] for h in f.heads.values()],
+                    [[k, list(v[1])] for k, v in f.scopes.items()]],
+            "children": list(f.child_flow_uids), "scope_flows": [list(v[0]) for v in f.scopes.values()],
+            "age_us": int((now - f.status_updated) / timedelta(microseconds=1)), "status": f.status.name, "activated": f.activated,
+        }
+    return {
+        "order": list(state.flow_states.keys()), "fs": fs,
+        "idx": {k: [x.uid for x in v] for k, v in state.flow_id_states.items()},
+        "actions": {k: [a.name, a.status.name, a.flow_uid, a.flow_scope_count, _shallow(a.context), _shallow(a.start_event_arguments)] for k, a in state.actions.items()},
+        "maps": [[[k, [list(x) for x in v]] for k, v in state.event_matching_heads.items()], [[list(k) if isinstance(k, tuple) else k, v] for k, v in state.event_matching_heads_reverse_map.items()]],
+        "rest": [len(state.internal_events), state.main_flow_state.uid if state.main_flow_state else None, _shallow(state.context)],
+    }
+
+
+def _aged_violation(live, aged):
+    """None, or why `Aged rm live aged` does not hold (rm = the instances missing in the aged state)"""
+    rm = [u for u in live["order"] if u not in aged["fs"]]
+    if [u for u in aged["order"] if u not in live["fs"]]:
+        return "the aged state has an instance the live one does not have"
+    if aged["order"] != [u for u in live["order"] if u not in rm]:
+        return "flow_states order differs"
+    for u in rm:
+        if live["fs"][u]["status"] not in ("FINISHED", "STOPPED"):
+            return f"{u} is missing in the aged state but is not done in the live one ({live['fs'][u]['status']})"
+    if aged["maps"] != live["maps"]:
+        return "the dispatch maps (event_matching_heads / reverse map) differ"
+    for u in aged["order"]:
+        a, l = aged["fs"][u], live["fs"][u]
+        if a["rec"] != l["rec"]:
+            k = next(i for i in range(len(a["rec"])) if a["rec"][i] != l["rec"][i])
+            return f"record of the kept instance {u} differs in field #{k}: live {json.dumps(l['rec'][k], default=str)[:120]} aged {json.dumps(a['rec'][k], default=str)[:120]}"
+        if a["children"] != [c for c in l["children"] if c not in rm]:
+            return f"child_flow_uids of {u}: aged {a['children']} is not the live list {l['children']} without {rm}"
+        if a["scope_flows"] != [[c for c in sc if c not in rm] for sc in l["scope_flows"]]:
+            return f"scope flow lists of {u} are not the live ones without {rm}"
+        if a["age_us"] < l["age_us"]:
+            return f"{u} is younger in the aged state"
+    if list(aged["idx"].keys()) != list(live["idx"].keys()) or any(aged["idx"][k] != [x for x in live["idx"][k] if x not in rm] for k in live["idx"]):
+        return "flow_id_states is not the live one without the discarded instances"
+    for k, v in aged["actions"].items():
+        if live["actions"].get(k) != v:
+            return f"action {k} of the aged state is not the live one"
+    for u in aged["order"]:
+        for au in live["fs"][u]["rec"][4]:
+            if (au in live["actions"]) != (au in aged["actions"]):
+                return f"action {au} referenced by the kept instance {u} is missing on one side"
+    if aged["rest"] != live["rest"]:
+        return "queue length / main flow / global context differ"
+    return None
+
+
 def run_e2e(case):
     ser = _M["ser"]
     _Clock.offset_us = 0
@@ -1070,31 +1153,48 @@ def run_e2e(case):
         _Clock.offset_us = 0
         _FakeRandomBits.counter = 0
         rerun = _Run(case["src"])
+        live_summ = []
         for i, ev in enumerate(hist):
             if snaps[i]["json"] is not None and (i == len(hist) - 1 or any(p["cut"] == i for p in obs["problems"])):
                 facts = _state_facts(rerun.state)
                 obs["facts"].update({k: v for k, v in facts.items() if v})
+                c0 = _FakeRandomBits.counter  # decoding constructs objects whose default uid draws from the counter
                 try:
                     d = _graph_diff(rerun.state, ser.json_to_state(ser.state_to_json(rerun.state)))
                 except BaseException as e:  # noqa
                     d = None
+                _FakeRandomBits.counter = c0
                 if d:
                     obs["problems"].append({"cut": i, "what": "structure", "msg": d[:200]})
             _Clock.offset_us += 1000
             rerun.feed(ev)
+            try:
+                live_summ.append(_aged_summary(rerun.state))
+            except Exception:  # noqa
+                live_summ.append(None)
     # ---- ageing at every cut: same program, same history, the clock jumps past the age before event i
     for i in range(len(hist)):
         _Clock.offset_us = 0
         _FakeRandomBits.counter = 0
         aged = _Run(case["src"])
+        rel_bad = None
         for j, ev in enumerate(hist):
             _Clock.offset_us += 1000
             if j == i:
                 n_before = len(aged.state.flow_states)
                 _Clock.offset_us += AGE_US * 2
-            aged.feed(ev)
-            if j == i:
-                pass
+            out = aged.feed(ev)
+            # the hypothesis of the T3 lemmas (`Bisim.Aged`), checked on the real states after every later event
+            if j >= i and rel_bad is None and not isinstance(out, str) and not isinstance(live_outs[j], str) and live_summ[j] is not None:
+                obs["aged_rel_checked"] = obs.get("aged_rel_checked", 0) + 1
+                try:
+                    why = _aged_violation(live_summ[j], _aged_summary(aged.state))
+                except Exception as e:  # noqa
+                    why = None
+                if why:
+                    rel_bad = {"cut": i, "what": "aged-relation", "step": j, "msg": why}
+        if rel_bad:
+            obs["problems"].append(rel_bad)
         a, b = _canon_outputs(live_outs[i:]), _canon_outputs(aged.outs[1 + i:])
         if a != b:
             step = next((k for k in range(len(a)) if a[k] != b[k]), 0)
@@ -1277,10 +1377,13 @@ def oracle(case, obs):
             return f"clock pushed past the clean-up age at cut {p['cut']}: diverges at event {p['step']}: live {json.dumps(p['live'])[:200]} aged {json.dumps(p['copy'])[:200]}"
         if p["what"] == "structure":
             return f"restored state at cut {p['cut']} is not isomorphic to the saved one: {p['msg']}"
+        if p["what"] == "aged-relation":
+            return (f"clock pushed past the clean-up age at cut {p['cut']}: after event {p['step']} the aged state is not related to the live one as "
+                    f"the T3 lemmas assume (Bisim.Aged): {p['msg']}")
     return None
 
 
-_ORDER = ["callbacks", "decode", "ageing-diverges", "restore-diverges", "structure", "encode"]
+_ORDER = ["callbacks", "decode", "ageing-diverges", "aged-relation", "restore-diverges", "structure", "encode"]
 
 
 def _worst(problems):
@@ -1481,6 +1584,8 @@ def tags(case, obs):
             t.append("cuts:" + str(min(obs["cuts"], 25) // 5 * 5))
             t.append("flows:" + str(min(obs["max_flows"], 12) // 3 * 3))
             t.append("aged-removed:" + str(min(obs["removed_by_ageing"], 5)))
+            if obs.get("aged_rel_checked"):
+                t.append("aged-relation-checked")
             for f in case.get("features", []):
                 t.append("feat:" + f)
             for p in obs["problems"][:1]:
